@@ -24,7 +24,7 @@ LEVEL_NOTE = ("Exhaustive only within those bounds and alphabets. safe_strncat w
               "ASan, harness/strhelpers_replay.c.")
 TECHNIQUE = "TLA+ reference operators + TLC exhaustive argument enumeration replayed on the implementation"
 DESIGN_REF = "DESIGN.md section 6 C13"
-ACTIONS = ["EvalCopy", "EvalSubstr", "EvalInPlace"]
+ACTIONS = ["EvalCopy", "EvalSubstr", "EvalInPlace", "EvalAlias"]
 SAMPLE_ARGS = [("copy", [4, [97, 90, 97, 97], [90, 0, 126, 126]]), ("copy", [3, [97], [90, 97, 90]]), ("substr", [[97, 98, 99, 100, 101], -3, 2]),
                ("substr", [[97, 98, 99], 1, -5]), ("inplace", [[32, 97, 9, 233, 32]]), ("inplace", [[9, 1, 32, 32, 90]])]
 
@@ -66,6 +66,11 @@ def mk_case(sid, r):
         cat_exp = tok({"buf": e["cat"]["result"], "ret": e["cat"]["ret"]}) if e["cat"]["claimed"] else "*"
         steps = [("strncpy", [str(size), tok(src), tok(b0)], tok({"buf": e["cpy"]["result"], "ret": e["cpy"]["ret"]}), cls_cpy),
                  ("strncat", [str(size), tok(src), tok(b0)], cat_exp, cls_cat)]
+    elif op == "alias":
+        size, k, m = a
+        L = m.index(0)
+        cls = "%s,%s" % ("dst=src" if k == 0 else "src-inside-dst-buffer", "cut" if L - k >= size else "fits")
+        steps = [("strncpy_alias", [str(size), str(k), tok(m)], tok({"buf": e["result"], "ret": e["ret"]}), cls)]
     elif op == "substr":
         s, idx, cnt = a
         n = len(s)
@@ -188,6 +193,12 @@ def family_extremes():
         for sl in (0, 1, 5, 40):
             for pl in (0, 1, 7):
                 out.append({"k": "roomy", "size": size, "src": [97 + (i % 26) for i in range(sl)], "pre": [65 + (i % 26) for i in range(pl)]})
+    # source and destination in the same buffer, at the sizes of the sweep
+    for n in SWEEP + (127, 129):
+        for L in (n - 2, n - 1, n, n + 1, 2 * n):
+            for k in sorted({0, 1, 7, 8, L // 2}):
+                if 0 <= k <= L:
+                    out.append({"k": "alias", "s": [33 + (i % 90) for i in range(L)], "off": k, "size": n})
     return out
 
 
@@ -203,7 +214,7 @@ def families(ctx, exe):
     cs = x_c12.CaseStream(ctx, exe, [], keyfn, "families")
     huge = []          # texts of ~65 536 bytes: run separately without the per-script heap balance (the harness's own result
                        # buffers grow to megabytes inside the script, which the balance would report as a leak)
-    count = {"EvalFileInPlace": 0, "EvalFileCopy": 0, "EvalFileRoomy": 0, "EvalFileSubstr": 0}
+    count = {"EvalFileInPlace": 0, "EvalFileCopy": 0, "EvalFileRoomy": 0, "EvalFileAlias": 0, "EvalFileSubstr": 0}
     extreme = [0]
     famcount = {}
 
@@ -235,6 +246,12 @@ def families(ctx, exe):
             cls = "size-sweep,size=%d" % size
             cs.add(x_c12.Case(i, [("strncpy", [str(size), tok(src), tok(b0)], tok({"buf": e["cpy"]["result"], "ret": e["cpy"]["ret"]}), cls),
                                   ("strncat", [str(size), tok(src), tok(b0)], cat_exp, cls)], {"family": "size-sweep"}))
+        elif r["op"] == "alias":
+            count["EvalFileAlias"] += 1
+            m = r["args"][1]
+            cls = "size-sweep,%s,%s" % ("dst=src" if row["off"] == 0 else "src-inside-dst-buffer", "cut" if len(row["s"]) - row["off"] >= row["size"] else "fits")
+            cs.add(x_c12.Case(i, [("strncpy_alias", [str(row["size"]), str(row["off"]), tok(m)], tok({"buf": e["result"], "ret": e["ret"]}), cls)],
+                              {"family": "aliased-copy"}))
         elif r["op"] == "roomy":
             count["EvalFileRoomy"] += 1
             extreme[0] += 1
@@ -265,6 +282,7 @@ def families(ctx, exe):
     if res.ok and (tot["scripts"] != len(rows) or res.edges != len(rows)):
         raise Broken("families: %d rows, %d evaluated by TLC, %d replayed" % (len(rows), res.edges, tot["scripts"]))
     ctx.cov["families"] = {"texts_by_family": famcount, "copy_and_substr_size_sweep": count["EvalFileCopy"] + count["EvalFileSubstr"] + count["EvalFileRoomy"] - extreme[0],
+                           "aliased_copy_size_sweep": count["EvalFileAlias"],
                            "extreme_integer_argument_cases": extreme[0],
                            "ordered_byte_pairs_covered_at_each_offset_mod_8": 255 * 255,
                            "note": "every in-place call is preceded by the same call at the same address on different content of the same "
@@ -286,7 +304,7 @@ def run(ctx):
         n[0] += 1
         cs.add(mk_case(n[0], r))
         a = r["args"]
-        if (r["op"] == "copy" and len(a[1]) > 0) or (r["op"] == "substr" and len(a[0]) > 0) or (r["op"] == "inplace" and len(a[0]) > 0):
+        if (r["op"] == "copy" and len(a[1]) > 0) or (r["op"] == "substr" and len(a[0]) > 0) or (r["op"] == "inplace" and len(a[0]) > 0) or r["op"] == "alias":
             nontriv[0] += 1
         if (r["op"], a) in SAMPLE_ARGS:       # chosen by content, so the evidence does not depend on TLC's emission order
             ctx.sample({"op": r["op"], "args": a, "expected": r["exp"]})
